@@ -845,7 +845,8 @@ export class RegexRuntype extends BaseRuntype {
 
   constructor(metadata: RuntypeMetadata | undefined, regex: RegExp, description: string) {
     super(metadata);
-    this.regex = regex;
+    // the whole string must match the template, and `${string}` may contain line terminators
+    this.regex = new RegExp(`^(?:${regex.source})$`, regex.flags.includes("s") ? regex.flags : regex.flags + "s");
     this.description = description;
   }
 
